@@ -1510,6 +1510,12 @@ def unwrap(t: tp.Any) -> tp.Any:
             t = t.__supertype__
             continue
 
+        # A type-variable stands for its bound, its constraints, or anything at all.
+        if type(t) is tp.TypeVar:
+            lt = t
+            t = normalize_typevar(t)
+            continue
+
         return t
     return t
 
